@@ -129,7 +129,7 @@ def ilutSelect (norm : K → K) (cnt : Nat) (cands : Row K) : Option (Row K × R
               cands.filter (fun e => !(decide (norm b.2 < norm e.2))))
       else none
 
-/-- what row `i` discards (ghost record, used by `Properties/C06d.lean` and the op `relax_ilut_drops` only) -/
+/-- what row `i` discards (ghost record, used by `Properties/C06e.lean` and the op `relax_ilut_drops` only) -/
 structure IlutDrop (K : Type) where
   /-- multipliers `(c, l_c)`, `c < i`, with `norm(l_c) ≤ tol`: not applied in the elimination loop, not stored -/
   skipped : Row K
